@@ -144,6 +144,13 @@ class Check(PropertyCheck):
             rows = ["".join(self.rng.choice(alpha) if self.rng.below(100) < dens else " " for _ in range(w)) for _ in range(h)]
             out.append(rows)
         out.append(["|  |", "+--+", "|  |", "+--+", "|  |"])
+        # rulers, combs and bar charts: many vertical strokes standing on one base line, also with labels
+        for _ in range(self.scale(120, 2000)):
+            rows = gen.comb(self.rng, below=self.rng.chance(1, 4)).split("\n")
+            if self.rng.chance(1, 3):
+                rows.append(" ".join(self.rng.choice(LABELS[:10]) for _ in range(self.rng.range(1, 5))))
+            w = max(len(r) for r in rows)
+            out.append([r.ljust(w) for r in rows])
         return out
 
     def correspondence(self):
@@ -200,6 +207,10 @@ class Check(PropertyCheck):
     def search(self, boost=1):
         fails = self.oracle(self.grids())
         return fails
+
+    def oracle_on_texts(self, texts):
+        ok = set("-|+ \n") | set("abcdefghijklmnpqrstuwyzABCDEFGHIJKLMNPQRSTUWYZ0123456789")
+        return self.oracle([t.split("\n") for t in texts if set(t) <= ok])
 
     def replay_case(self, case):
         return self.oracle([case["input"].split("\n")])
